@@ -111,6 +111,27 @@ fn iso_event(y: i32, w: u32, wdi: i64) -> Value {
 fn days_event(n: i32) -> Value {
     ev("days", json!({"n": n}), || json!(odn(NaiveDate::from_num_days_from_ce_opt(n))))
 }
+// Each constructor is driven through both public routes: the `_opt` form and the deprecated panicking form, whose documented
+// panic ("panics if the date is invalid / out of range") is the same outcome as `None`; both are judged by the same action.
+#[allow(deprecated)]
+fn ymd_events(y: i32, m: u32, d: u32) -> [Value; 2] {
+    [ymd_event(y, m, d),
+     ev("ymd", json!({"y": y, "m": big(m as i128), "d": big(d as i128), "route": "from_ymd"}), || json!(odn(crate::guard(|| NaiveDate::from_ymd(y, m, d)).ok())))]
+}
+#[allow(deprecated)]
+fn yo_events(y: i32, o: u32) -> [Value; 2] {
+    [yo_event(y, o), ev("yo", json!({"y": y, "o": big(o as i128), "route": "from_yo"}), || json!(odn(crate::guard(|| NaiveDate::from_yo(y, o)).ok())))]
+}
+#[allow(deprecated)]
+fn iso_events(y: i32, w: u32, wdi: i64) -> [Value; 2] {
+    [iso_event(y, w, wdi),
+     ev("iso", json!({"y": y, "w": big(w as i128), "wd": wdi, "route": "from_isoywd"}), || json!(odn(crate::guard(|| NaiveDate::from_isoywd(y, w, wd_of(wdi))).ok())))]
+}
+#[allow(deprecated)]
+fn days_events(n: i32) -> [Value; 2] {
+    [days_event(n), ev("days", json!({"n": n, "route": "from_num_days_from_ce"}), || json!(odn(crate::guard(|| NaiveDate::from_num_days_from_ce(n)).ok())))]
+}
+fn emit2(tw: &mut Tw, v: [Value; 2]) { for e in v { tw.emit(e); } }
 fn cmp_event(a: NaiveDate, b: NaiveDate) -> Value {
     let c = |o: std::cmp::Ordering| o as i8 as i64;
     let h = |x: &dyn Fn(&mut std::collections::hash_map::DefaultHasher)| { use std::hash::Hasher; let mut s = std::collections::hash_map::DefaultHasher::new(); x(&mut s); s.finish() };
@@ -127,7 +148,7 @@ pub fn run(ctx: &Ctx) -> Value {
     for &n in bad.iter().take(2000) {
         match crate::guard(|| NaiveDate::from_num_days_from_ce_opt(n as i32)) {
             Ok(Some(d)) => tw.emit(date_event(d)),
-            _ => tw.emit(days_event(n as i32)),
+            _ => emit2(&mut tw, days_events(n as i32)),
         }
     }
     // 2. dates judged by the specification
@@ -173,30 +194,30 @@ pub fn run(ctx: &Ctx) -> Value {
     let weeks: Vec<u32> = vec![0, 1, 2, 51, 52, 53, 54, 1 << 31, u32::MAX];
     let mut n_ctor = 0usize;
     for &y in &years {
-        for &m in &months { for &d in &dayv { tw.emit(ymd_event(y, m, d)); n_ctor += 1; } }
-        for &o in &ords { tw.emit(yo_event(y, o)); n_ctor += 1; }
-        for &w in &weeks { for wdi in 0..7 { tw.emit(iso_event(y, w, wdi)); n_ctor += 1; } }
+        for &m in &months { for &d in &dayv { emit2(&mut tw, ymd_events(y, m, d)); n_ctor += 1; } }
+        for &o in &ords { emit2(&mut tw, yo_events(y, o)); n_ctor += 1; }
+        for &w in &weeks { for wdi in 0..7 { emit2(&mut tw, iso_events(y, w, wdi)); n_ctor += 1; } }
     }
     for n in [i32::MIN, i32::MIN + 1, i32::MIN + 365, i32::MIN + 366, MIN_DAY as i32 - 2, MIN_DAY as i32 - 1, MIN_DAY as i32, MIN_DAY as i32 + 1,
               -1, 0, 1, 2, 719_163, MAX_DAY as i32 - 1, MAX_DAY as i32, MAX_DAY as i32 + 1, MAX_DAY as i32 + 2, i32::MAX - 366, i32::MAX - 1, i32::MAX] {
-        tw.emit(days_event(n)); n_ctor += 1;
+        emit2(&mut tw, days_events(n)); n_ctor += 1;
     }
     // every (month, day) cell for a leap and a common year, every ordinal, every ISO (week, weekday) of a 52- and a 53-week year
     for y in [2023, 2024, 2020, 2026, -262_143, 262_142] {
-        for m in 0..=13 { for d in 0..=32 { tw.emit(ymd_event(y, m, d)); n_ctor += 1; } }
-        for o in 0..=367 { tw.emit(yo_event(y, o)); n_ctor += 1; }
-        for w in 0..=54 { for wdi in 0..7 { tw.emit(iso_event(y, w, wdi)); n_ctor += 1; } }
+        for m in 0..=13 { for d in 0..=32 { emit2(&mut tw, ymd_events(y, m, d)); n_ctor += 1; } }
+        for o in 0..=367 { emit2(&mut tw, yo_events(y, o)); n_ctor += 1; }
+        for w in 0..=54 { for wdi in 0..7 { emit2(&mut tw, iso_events(y, w, wdi)); n_ctor += 1; } }
     }
     // width aliases of valid arguments: v + 2^j must denote nothing
     for (m, d) in [(2u32, 29u32), (12, 31), (1, 1)] {
-        for a in crate::rng::alias_u32(m) { tw.emit(ymd_event(2024, a, d)); n_ctor += 1; }
-        for a in crate::rng::alias_u32(d) { tw.emit(ymd_event(2024, m, a)); n_ctor += 1; }
+        for a in crate::rng::alias_u32(m) { emit2(&mut tw, ymd_events(2024, a, d)); n_ctor += 1; }
+        for a in crate::rng::alias_u32(d) { emit2(&mut tw, ymd_events(2024, m, a)); n_ctor += 1; }
     }
-    for o in [1u32, 60, 366] { for a in crate::rng::alias_u32(o) { tw.emit(yo_event(2024, a)); n_ctor += 1; } }
-    for w in [1u32, 52, 53] { for a in crate::rng::alias_u32(w) { tw.emit(iso_event(2020, a, 3)); n_ctor += 1; } }
+    for o in [1u32, 60, 366] { for a in crate::rng::alias_u32(o) { emit2(&mut tw, yo_events(2024, a)); n_ctor += 1; } }
+    for w in [1u32, 52, 53] { for a in crate::rng::alias_u32(w) { emit2(&mut tw, iso_events(2020, a, 3)); n_ctor += 1; } }
     // ISO years one beyond the calendar-year range are valid where the day is representable
     for y in [-262_145, -262_144, -262_143, 262_142, 262_143, 262_144] {
-        for w in [1u32, 2, 51, 52, 53] { for wdi in 0..7 { tw.emit(iso_event(y, w, wdi)); n_ctor += 1; } }
+        for w in [1u32, 2, 51, 52, 53] { for wdi in 0..7 { emit2(&mut tw, iso_events(y, w, wdi)); n_ctor += 1; } }
     }
     // 4. random tuples, half of them aimed at valid dates
     let n_rand = ctx.t(6_000, 1_000_000);
@@ -205,10 +226,10 @@ pub fn run(ctx: &Ctx) -> Value {
         match rng.below(4) {
             0 => { let m = if rng.chance(7, 8) { rng.range(1, 12) } else { rng.range(0, 20) } as u32;
                    let d = if rng.chance(7, 8) { rng.range(1, 31) } else { rng.range(0, 40) } as u32;
-                   tw.emit(ymd_event(y, m, d)); }
-            1 => tw.emit(yo_event(y, if rng.chance(7, 8) { rng.range(1, 366) } else { rng.range(0, 400) } as u32)),
-            2 => tw.emit(iso_event(y, if rng.chance(7, 8) { rng.range(1, 53) } else { rng.range(0, 60) } as u32, rng.range(0, 6))),
-            _ => tw.emit(days_event(if rng.chance(7, 8) { rng.range(MIN_DAY - 1000, MAX_DAY + 1000) } else { rng.range(i32::MIN as i64, i32::MAX as i64) } as i32)),
+                   emit2(&mut tw, ymd_events(y, m, d)); }
+            1 => emit2(&mut tw, yo_events(y, if rng.chance(7, 8) { rng.range(1, 366) } else { rng.range(0, 400) } as u32)),
+            2 => emit2(&mut tw, iso_events(y, if rng.chance(7, 8) { rng.range(1, 53) } else { rng.range(0, 60) } as u32, rng.range(0, 6))),
+            _ => emit2(&mut tw, days_events(if rng.chance(7, 8) { rng.range(MIN_DAY - 1000, MAX_DAY + 1000) } else { rng.range(i32::MIN as i64, i32::MAX as i64) } as i32)),
         }
     }
     // 5. order: adjacent pairs and random pairs
